@@ -45,6 +45,11 @@ def _table(lang):
     return by_first
 
 
+def is_punct(p, lang):
+    """p is one punctuator of the language (for the languages this lexer covers)"""
+    return p in [x for v in _table(lang).values() for x in v]
+
+
 def is_idstart(c):
     return c.isalpha() or c == "_" or ord(c) >= 0x80
 
